@@ -162,6 +162,16 @@ impl NostrGroupDataExtension {
                 "Trailing bytes in NostrGroupDataExtension".to_string(),
             ));
         }
+        // tls_codec reads the elements of a list until the announced byte length is reached,
+        // not until it is exactly used up: a length prefix that ends inside an element (an
+        // admin key, a relay) is accepted and the rest of that element is taken from the bytes
+        // that follow. Such bytes are a second spelling of the same value; accept only an
+        // encoding that re-encodes to itself.
+        if tls_codec::Serialize::tls_serialize_detached(&deserialized)? != bytes {
+            return Err(Error::ExtensionFormatError(
+                "Inconsistent length prefix in NostrGroupDataExtension".to_string(),
+            ));
+        }
         Self::from_raw(deserialized)
     }
 
